@@ -206,4 +206,29 @@ CHECKS = {
         technique='static call-resolution through method tables with end classification, plus pairing/dominance rules on qlist.c',
         design_ref='4-C09',
     ),
+    'C17': dict(
+        category='other',
+        text='Decides the memory-safety clause for the enumerated scan idioms, not termination: CU1 abstract interpretation of every '
+             'path of the 11 scan functions in the safe-window domain (bytes known to precede the terminator per cursor, read/write '
+             'cursor distance, flag locals): no dereference at or beyond the terminator by look-ahead or multi-byte strides, no cursor '
+             'moved past one-past-the-end, in-place decoders never write ahead of the reader or over the terminator (so they never '
+             'produce more bytes than the input had); CU3 definite assignment of every scalar/pointer local in the parser units, goto '
+             'edges included.',
+        note='String parameters of the site table are assumed NUL-terminated; termination (e.g. mutually referential ${} variables) is '
+             'not decidable here and not claimed; count-bounded index loops, computed indexes and strlen-based tails are outside the '
+             'domain and listed as not analysed.',
+        technique='static abstract interpretation (safe-window cursor domain with flag partitioning) over per-function CFGs; definite-assignment dataflow',
+        design_ref='3-F, 4-C17',
+    ),
+    'C19': dict(
+        category='other',
+        text='Decides only the bounded-write clause for the size-parameterised routines (qstrcpy, qstrncpy, qstrgets): every block '
+             'copy / indexed store into the destination needs the must-fact len < size established by the clamp, delegation passes '
+             '(dst, size) unchanged to a verified routine, cursor writes sit in a loop bounded by i < size - 1 with the cursor advancing '
+             'no faster than i; plus overlap-safe copies in the in-place routines. What trim/replace/tokenizer/unquote compute and the '
+             'output bound of qstrreplace are value computations and are not decided.',
+        note='Narrow by design; size == 0 for qstrgets is outside the quantifier (sizes 1..n+2).',
+        technique='static must-fact dataflow (comparison- and assignment-derived bounds) and a loop counting rule on the CFG',
+        design_ref='3-D Q1, 4-C19',
+    ),
 }
